@@ -227,7 +227,11 @@ impl TimeZone {
                 // b. Let possibleEpochNanoseconds be
                 // GetNamedTimeZoneEpochNanoseconds(parseResult.[[Name]],
                 // isoDateTime).
-                provider.get_named_tz_epoch_nanoseconds(identifier, iso)?
+                // NOTE: GetNamedTimeZoneEpochNanoseconds returns its list in ascending order;
+                // the disambiguation below relies on it, so it is enforced here.
+                let mut possible = provider.get_named_tz_epoch_nanoseconds(identifier, iso)?;
+                possible.sort();
+                possible
             }
         };
         // 4. For each value epochNanoseconds in possibleEpochNanoseconds, do
